@@ -10,7 +10,7 @@ THEOREMS = ["Sb.C13.firstTouch_none", "Sb.C13.firstTouch_some", "Sb.C13.first_cr
 RULE = ("trajectory files with 1..7 segments whose altitude encodings are constant, linear or well-conditioned cubic (5% rule), arbitrary "
         "x/y encodings incl. degree 7, scales {1, 10, 127}; climbs, hovers, descents before the climb, plateaus; takeoff ascents h chosen "
         "from: 0, the altitude gain at every segment boundary exactly (crossing exactly at a boundary / plateau exactly at the target), "
-        "fractions inside every segment's gain, the maximum gain exactly and just beyond (never reached); speeds {500.5, 1000, 2000}, "
+        "fractions inside every segment's gain, a hair above an initial hover (1..3 float steps, up to 1e-3 mm), the maximum gain exactly and just beyond (never reached); speeds {500.5, 1000, 2000}, "
         "accelerations {1, 1000, 4000, +inf}; invalid parameters {negative, zero, +-inf, NaN} in each position. The proposal function "
         "and the one-pass statistics interface are both called, through both loading routes. Non-trivial: at least one segment.")
 ASSUMPTIONS = ["'E' is judged through the altitude it yields and through 'not robustly reached earlier', decided exactly (Sturm) on the exact Bezier "
@@ -107,6 +107,30 @@ def generate(rng, tier):
                 qs.append(f"K{fb(b2f(f2b(h)))},{fb(1000.0)},{fb(1000.0)}")
         if qs:
             out.append((f"stats {hx(skyb(blk, rng))} " + " ".join(qs), True))
+    # takeoff altitudes a hair above a hover (one to a few float steps, up to 1e-3 mm): constant-altitude segments are
+    # compared exactly, so the hover must not count as reaching the altitude; the crossing is in the climb behind it
+    for i in range(60 if tier == "thorough" else 16):
+        scale = rng.choice([1, 10])
+        z0 = rng.choice([0, 100, 250, 819, 1000, 2500])
+        nh = rng.choice([1, 2])
+        segs = [(rng.choice([1000, 5000]), rng.choice([[], [50]]), [], [], []) for _ in range(nh)]
+        segs.append((rng.choice([2000, 6000]), [], [], [z0 + rng.choice([100, 1500])], []))
+        if rng.random() < 0.5:
+            segs.append((3000, [], [], [z0], []))          # and down again
+        blk = build(scale, (0, 0, z0, 0), segs)
+        base = float(z0 * scale)
+        import struct
+        def up(x, k):
+            b = f2b(x)
+            return b2f(b + k)
+        hs = [0.0]
+        if base > 0:
+            # h such that float(base + h) is k steps above base
+            for k in (1, 2, 3):
+                hs.append(b2f(f2b(up(base, k) - base)))
+        hs += [0.0002, 0.0005, 0.0009, 0.002]
+        qs = [f"K{fb(b2f(f2b(h)))},{fb(1000.0)},{fb(rng.choice([1000.0, math.inf]))}" for h in hs]
+        out.append((f"stats {hx(skyb(blk, rng))} " + " ".join(qs), True))
     # invalid parameters on a plain climb
     blk = build(10, (0, 0, 0, 0), [(5000, [], [], [300], []), (5000, [100], [], [], [])])
     f = hx(skyb(blk))
